@@ -55,6 +55,10 @@ type Case struct {
 	V3    bool   `json:"v3,omitempty"`
 	Ops   []Op   `json:"ops"`
 	Note  string `json:"note,omitempty"`
+	// Subs: number of state-message channels registered at the start besides none (0 = only the harness' observer);
+	// Script: what the scripted subscribers 1..Subs-1 do from inside their handling of a message
+	Subs   int        `json:"subs,omitempty"`
+	Script []Reaction `json:"script,omitempty"`
 }
 
 // Obs is what the implementation did for one op.
@@ -152,6 +156,10 @@ type world struct {
 	events   chan service.StateMsg
 	pending  []service.DIDCommAction
 	evThread []string
+	disp     *dispatcher
+	regEv    func(chan<- service.StateMsg) error
+	unregEv  func(chan<- service.StateMsg) error
+	rawAll   []sEvent
 	written  []string
 	seenPIID []string
 	evMsg    []string
@@ -222,6 +230,13 @@ func newWorld(proto string, v3 bool) *world {
 			return e
 		}
 		w.barrier = svc.VerifBarrier
+		w.regEv, w.unregEv = svc.RegisterMsgEvent, svc.UnregisterMsgEvent
+		svc.Use(func(next ic.Handler) ic.Handler {
+			return ic.HandlerFunc(func(md ic.Metadata) error {
+				w.sync()
+				return next.Handle(md)
+			})
+		})
 		w.optOf = func(kind string) interface{} {
 			switch kind {
 			case "propose":
@@ -253,6 +268,13 @@ func newWorld(proto string, v3 bool) *world {
 			return e
 		}
 		w.barrier = svc.VerifBarrier
+		w.regEv, w.unregEv = svc.RegisterMsgEvent, svc.UnregisterMsgEvent
+		svc.Use(func(next pp.Handler) pp.Handler {
+			return pp.HandlerFunc(func(md pp.Metadata) error {
+				w.sync()
+				return next.Handle(md)
+			})
+		})
 		w.optOf = func(kind string) interface{} {
 			switch kind {
 			case "propose":
@@ -486,6 +508,8 @@ func (w *world) drain() (ann []string, bad string) {
 		select {
 		case e := <-w.events:
 			evs = append(evs, stateEv{e.Type, e.StateID})
+			w.rawAll = append(w.rawAll, sEvent{Pre: e.Type == service.PreState, State: e.StateID})
+
 			continue
 		default:
 		}
@@ -653,6 +677,8 @@ func (w *world) apply(op Op) (o Obs, staleEvent bool, bad string) {
 
 		o.Res = "ok"
 	}
+
+	w.sync()
 
 	o.Ann, bad = w.drain()
 
@@ -957,6 +983,10 @@ func tapeOf(proto string, op Op, o Obs) []string {
 
 func runCase(tr *hx.Trace, kind string, c *Case, withCoq bool) (key string, lastRes string) {
 	w := newWorld(c.Proto, c.V3)
+	if c.Subs > 1 && w.regEv != nil {
+		w.enableSubs(c.Subs-1, c.Script)
+		defer w.closeSubs()
+	}
 
 	var (
 		obs     []Obs
@@ -988,6 +1018,34 @@ func runCase(tr *hx.Trace, kind string, c *Case, withCoq bool) (key string, last
 	r := &hx.Record{Kind: kind, Case: c, Observed: obs, Class: c.Proto + "|" + strings.Join(classes, "|"), Trivial: !nontriv, Dist: dist}
 	if withCoq {
 		r.Coq = coqCase(c, obs)
+	}
+
+	if w.disp != nil {
+		// every channel registered throughout must have received exactly what the observer received
+		w.disp.mu.Lock()
+		streams := []string{coqSEvents(numberings[c.Proto], w.rawAll)}
+
+		for i, sb := range w.disp.subs {
+			id := i + 1
+			streams = append(streams, coqSEvents(numberings[c.Proto], sb.stream))
+
+			touched := id >= c.Subs
+			for _, x := range c.Script {
+				touched = touched || (x.Kind == "unreg" && x.J == id)
+			}
+
+			if !touched && !v.fail && fmt.Sprint(sb.stream) != fmt.Sprint(w.rawAll) {
+				v = verdict{fail: true, sig: c.Proto + ":subscriber-stream",
+					detail: fmt.Sprintf("channel %d was registered throughout but received %v, the thread announced %v", id, sb.stream, w.rawAll)}
+			}
+		}
+		w.disp.mu.Unlock()
+
+		if withCoq {
+			r.Coq = "Sub" + r.Coq + fmt.Sprintf(" %d%%nat %s %s", c.Subs, coqScript(c.Script), hx.CoqList(streams))
+		}
+
+		r.Class += fmt.Sprintf("|subs%d:%v", c.Subs, c.Script)
 	}
 
 	if v.fail {
@@ -1129,7 +1187,7 @@ func wireVariants(op Op) []Op {
 }
 
 func explore(tr *hx.Trace, proto string, v3 bool, depth, threads, twoUntil, faultDepth, coqBudget int) {
-	coqFault2, coqWire, wireDepth := 0, 0, 2
+	coqFault2, coqWire, wireDepth, coqSubs, subDepth := 0, 0, 2, 0, 2
 	seen := map[string]bool{"": true}
 	frontier := []node{{}}
 	coqUsed := 0
@@ -1188,6 +1246,15 @@ func explore(tr *hx.Trace, proto string, v3 bool, depth, threads, twoUntil, faul
 
 				seen[key] = true
 				n2 := node{ops: c.Ops, nEv: nd.nEv}
+
+				// the same history observed by four channels, with every single scripted reaction
+				if d < subDepth && proto != "intro" {
+					for _, sc := range subScripts(4) {
+						sc2 := &Case{Proto: proto, V3: v3, Ops: c.Ops, Subs: 4, Script: sc}
+						runCase(tr, "exhaustive-subs", sc2, coqSubs < coqBudget)
+						coqSubs++
+					}
+				}
 
 				for _, e := range nd.evs {
 					if !((op.Kind == "continue" || op.Kind == "stop") && op.Ev == e.idx) {
